@@ -81,6 +81,12 @@ type c03Table struct {
 
 func (tb *c03Table) installFallbacks(nf, na bool) {
 	tb.useNF, tb.useNA = nf, na
+	if !nf && na {
+		tb.rt.SetNotFoundHandler(nil) // an explicit reset to the default not-found answer
+	}
+	if !na && nf {
+		tb.rt.SetNotAllowedHandler(nil)
+	}
 	if nf {
 		tb.rt.SetNotFoundHandler(http.HandlerFunc(func(w http.ResponseWriter, r *http.Request) {
 			tb.sawNF = true
